@@ -240,6 +240,7 @@ type Probe struct {
 	pendingSet    bool
 	pendingErr    error
 	pendingDone   bool
+	runHook       func(ctx context.Context) error // queue flavour: run hook body
 	captureRT     bool
 	rt          controller.Runtime // the runtime handle of the running plain controller (C17 drives UpdateInputs through it)
 	onReconcile func(p *Probe, r controller.Runtime) error
@@ -355,6 +356,9 @@ func (p *Probe) Settings() controller.QSettings {
 	s := controller.QSettings{Inputs: toInputs(p.Spec.Inputs), Outputs: toOutputs(p.Spec.Outputs)}
 	if p.Spec.Concurrency > 0 {
 		s.Concurrency = optional.Some(uint(p.Spec.Concurrency))
+	}
+	if p.runHook != nil {
+		s.RunHook = func(ctx context.Context, _ *zap.Logger, _ controller.QRuntime) error { return p.runHook(ctx) }
 	}
 	return s
 }
